@@ -18,6 +18,14 @@ CLAIMED = {
          "Exploration by runtime monitoring: generated 2-4 file workspaces (nesting, shadowing, upvalues, all loop forms, repeat-until, local functions, methods, cross-file globals) are loaded into the real server and go-to-definition is asked at both ends of every variable-name occurrence; each answer is compared with the binding computed by an independent implementation of Lua's scoping rules. Known position-based-resolver defects are listed as findings by syntactic trigger class; anything else is a violation.",
          "Trusts R-parse/R-bind; programs use conventional formatting and plain ASCII (column bookkeeping is C04's), no function literals inside assignment targets (not explored). Built-in names are don't-care.",
          "DESIGN.md 3/C05"),
+ "C06": ("online monitor: textDocument/references answers vs the reference binder's occurrence classes (set equality)",
+         "Exploration by runtime monitoring: on generated multi-file workspaces find-references is issued from every variable occurrence and the returned (file, range) set is compared with the occurrence class computed by an independent binder (locals: declaration, reads, writes; single-definition globals: every occurrence in every file). Mismatches are reduced to a root-cause signature; the known resolver trigger classes and multiply-assigned globals are listed findings, every other difference is a violation.",
+         "Trusts R-parse/R-bind. Never-assigned globals and built-ins are don't-care. Globals assigned at several sites are only checked up to finding C06-K4.",
+         "DESIGN.md 3/C06"),
+ "C11": ("online monitor: WorkspaceEdit of textDocument/rename checked against the client's text, R-bind's occurrence class, and by applying it and re-binding / re-analysing",
+         "Exploration by runtime monitoring: rename with a fresh identifier at every renameable occurrence of generated workspaces; each returned edit must be disjoint from the others and cover exactly the old name in the client's own text, the edit set must equal the reference binder's occurrence class, and after applying the edit the reference front end must accept the files with an isomorphic binding graph; on a sample a fresh server on the renamed workspace must report the same diagnostics up to the name.",
+         "Trusts R-parse/R-bind and R-text. Diagnostics that mention a multiply-assigned global are excluded from the before/after comparison (their content varies between runs, C09).",
+         "DESIGN.md 3/C11"),
 }
 
 PENDING_REASON = "check not built yet in this revision of /verif (work in progress; see DESIGN.md section 3 for the planned monitor)"
